@@ -208,3 +208,8 @@ Lemma tie_matrix_normsq a00 a01 a02 a10 a11 a12 b00 b01 b10 b11 b20 b21 c00r c00
   [a00*a00 + a01*a01 + a02*a02 + a10*a10 + a11*a11 + a12*a12; b00*b00 + b01*b01 + b10*b10 + b11*b11 + b20*b20 + b21*b21;
    c00r*c00r + c00i*c00i + c01r*c01r + c01i*c01i + c10r*c10r + c10i*c10i + c11r*c11r + c11i*c11i; 0].
 Proof. tie. Qed.
+Lemma tie_matrix_negate_zero_assign a00 a01 a02 a10 a11 a12 :
+  matrix_negate_zero_assign (OO:=ROps) a00 a01 a02 a10 a11 a12 =
+  [- a00; - a01; - a02; - a10; - a11; - a12; 0; 0; 0; 0; 0; 0;
+   a00; 0; a01; 0; a02; 0; a10; 0; a11; 0; a12; 0; a00; 0; a01; 0; a02; 0; a10; 0; a11; 0; a12; 0].
+Proof. tie. Qed.
